@@ -6,14 +6,14 @@ import Mathlib.Tactic.Ring
 open Polynomial
 namespace GF
 
-/-- every coefficient-function leaf vanishes beyond the 300th term (what `FunctionGF.evaluate` assumes) -/
+/-- every coefficient-function leaf vanishes beyond its largest term (what `FunctionGF.evaluate` relies on) -/
 def LeafOK : G → Prop
-  | .fn f => ∀ i, 300 < i → f i = 0
+  | .fn f n => ∀ i, n < i → f i = 0
   | .sum a b => LeafOK a ∧ LeafOK b
   | .prod a b => LeafOK a ∧ LeafOK b
 
 noncomputable def poly : G → ℚ[X]
-  | .fn f => ∑ i ∈ Finset.range 301, C (f i) * X ^ i
+  | .fn f n => ∑ i ∈ Finset.range (n + 1), C (f i) * X ^ i
   | .sum a b => poly a + poly b
   | .prod a b => poly a * poly b
 
@@ -31,7 +31,7 @@ theorem foldl_range_sum (g : Nat → ℚ) (n : Nat) :
 theorem eval_poly (x : ℚ) : ∀ e : G, (poly e).eval x = eval e x := by
   intro e
   induction e with
-  | fn f =>
+  | fn f n =>
     simp only [poly, eval, eval_finset_sum, eval_mul, eval_C, eval_pow, eval_X]
     rw [foldl_range_sum (fun i => f i * pow x i)]
     apply Finset.sum_congr rfl; intro i _; rw [pow_eq]
